@@ -15,3 +15,203 @@ Proof.
   - eapply ostart_inv; eauto.
   - eapply ostep_pres; eauto.
 Qed.
+
+
+(* ---------- 1. a repeated non-READ request is not executed again ------------------------------------------------------------- *)
+
+Lemma sol_wait_fragment_repeat cfg s se dl from bytes d ctl fn obj resp :
+  to_treq cfg from d = TqRequest ctl fn obj ->
+  classify s None bytes ctl fn obj = FtRepeatNonRead resp ->
+  sol_wait_fragment cfg s se dl from None bytes d = (SoNewRequest, [OInfo ISolNewRequest]).
+Proof. intros Et Ecl. unfold sol_wait_fragment. rewrite Et, Ecl. reflexivity. Qed.
+
+
+Definition next_fid (s : ostate) : N := (s_frame_id s + 1) mod 4294967296.
+Definition rx_state (s : ostate) : ostate := upd_frame_id s (next_fid s).
+
+Lemma on_rx_idle cfg s from bc bytes d :
+  s_control s = CIdle ->
+  on_rx cfg s from bc bytes d =
+  idle_loop 8 cfg (upd_pending (rx_state s) (Some (from, bc, bytes, d, next_fid s))).
+Proof. intros Hc. unfold on_rx, rx_state, next_fid. cbv zeta. psimpl. rewrite Hc. reflexivity. Qed.
+
+Lemma on_rx_unsol cfg s from bc bytes d resp is_null retries deadline :
+  s_control s = CUnsolWait resp is_null retries deadline ->
+  on_rx cfg s from bc bytes d =
+  let '(s1, res, o) := unsol_wait_fragment cfg (rx_state s) resp from bc bytes d (next_fid s) in
+  match res with
+  | None => (s1, o)
+  | Some r =>
+      let '(s2, ns, o2) := end_unsol cfg s1 is_null r in
+      let '(s3, o3) := resume_at cfg (St3 ns) s2 in
+      (s3, o ++ o2 ++ o3)
+  end.
+Proof. intros Hc. unfold on_rx, rx_state, next_fid. cbv zeta. psimpl. rewrite Hc. reflexivity. Qed.
+
+Lemma on_rx_sol_new cfg s from bc bytes d se deadline r o :
+  s_control s = CSolWait se deadline r ->
+  sol_wait_fragment cfg (rx_state s) se deadline from bc bytes d = (SoNewRequest, o) ->
+  on_rx cfg s from bc bytes d =
+  let '(s2, o2) := resume_at cfg (stage_of r)
+                     (upd_pending (upd_control (rx_state s) CIdle) (Some (from, bc, bytes, d, next_fid s))) in
+  (s2, o ++ [ODb DbReset] ++ o2).
+Proof.
+  intros Hc Hw. unfold on_rx. cbv zeta. fold (next_fid s). fold (rx_state s).
+  replace (s_control (rx_state s)) with (s_control s) by reflexivity. rewrite Hc, Hw. reflexivity.
+Qed.
+
+(* the observations of the step that receives the repeat, by the control state it arrives in *)
+Definition repeat_prefix (c : control) (fn seq : N) (pre : list oobs) : Prop :=
+  match c with
+  | CIdle => pre = [OInfo (IIdleRequest fn seq)]
+  | CUnsolWait _ _ _ _ => pre = []
+  | CSolWait _ _ _ =>
+      exists u i, pre = [OInfo ISolNewRequest; ODb DbReset] ++ u ++ i /\ forallb ustart u = true /\
+                  (i = [] \/ i = [OInfo (IIdleRequest fn seq)])
+  end.
+
+Lemma resume_at_fuel cfg st s : resume_at cfg st s = idle_run (S (S (S (S (S 27))))) cfg st s.
+Proof. unfold resume_at. reflexivity. Qed.
+
+Lemma repeat_step_inv cfg h s from bytes d ans ctl fn obj resp s' o :
+  inv cfg h s ->
+  to_treq cfg from d = TqRequest ctl fn obj ->
+  classify s None bytes ctl fn obj = FtRepeatNonRead resp ->
+  ostep cfg s (ERx from None bytes d) ans = (s', o) ->
+  exists pre post,
+    o = pre ++ echo_of s from resp ++ post /\ forallb bg post = true /\
+    repeat_prefix (s_control s) fn (ctl_seq ctl) pre.
+Proof.
+  intros Hinv Et Ecl H. unfold ostep in H.
+  assert (Hinv0 : inv cfg h (upd_answers s ans)) by (apply inv_same with (s := s); [frame_tac | exact Hinv]).
+  destruct (on_rx cfg (upd_answers s ans) from None bytes d) as [s1 o1] eqn:E1.
+  destruct (advance 64 cfg s1 (s_now s1 + settle_ms)) as [s2 o2] eqn:E2. inv_pair H.
+  pose proof (on_rx_pres _ _ _ _ _ _ _ _ _ E1 Hinv0) as [_ [Hp1 _]].
+  apply advance_bg in E2 as [_ S2]; auto.
+  remember (upd_answers s ans) as s0 eqn:Es0.
+  assert (Hl0 : s_last (rx_state s0) = s_last s) by (subst s0; reflexivity).
+  assert (Hb0 : s_sol_buf (rx_state s0) = s_sol_buf s) by (subst s0; reflexivity).
+  assert (Hc0 : s_control s0 = s_control s) by (subst s0; reflexivity).
+  assert (Hd0 : s_deferred (rx_state s0) = s_deferred s) by (subst s0; reflexivity).
+  assert (EclA : forall sx, s_last sx = s_last (rx_state s0) -> classify sx None bytes ctl fn obj = FtRepeatNonRead resp).
+  { intros sx X. rewrite <- Ecl. apply classify_last. congruence. }
+  clear Es0 Hinv0.
+  destruct (s_control s) as [|se dl r|resp0 is_null retries dl] eqn:Ec; cbn [repeat_prefix].
+  - rewrite on_rx_idle in E1 by exact Hc0.
+    rewrite idle_loop_8_eq, resume_at_fuel in E1.
+    apply (idle_run_repeat_St1 cfg 31 _ from bytes d (next_fid s0) ctl fn obj resp) in E1
+      as [_ [post [Eo B]]]; [| reflexivity | exact Et | apply EclA; reflexivity].
+    subst o1. rewrite (echo_of_buf s) by exact Hb0.
+    exists [OInfo (IIdleRequest fn (ctl_seq ctl))], (post ++ o2).
+    split; [rewrite <- !app_assoc; reflexivity|]. split; [fb | reflexivity].
+  - rewrite (on_rx_sol_new cfg s0 from None bytes d se dl r [OInfo ISolNewRequest]) in E1;
+      [| exact Hc0 | apply (sol_wait_fragment_repeat _ _ _ _ _ _ _ ctl fn obj resp); [exact Et | apply EclA; reflexivity]].
+    match type of E1 with context [resume_at cfg ?st ?sx] => destruct (resume_at cfg st sx) as [s3 o3] eqn:E3 end.
+    inv_pair E1. rewrite resume_at_fuel in E3.
+    apply (idle_run_repeat cfg 27 _ _ from bytes d (next_fid s0) ctl fn obj resp) in E3
+      as [_ [u [i [post [Eo [Su [Hi B]]]]]]];
+      [| destruct r; cbn [stage_of]; eauto | reflexivity | reflexivity | | exact Et | apply EclA; reflexivity].
+    + subst o3. rewrite (echo_of_buf s) by exact Hb0.
+      exists ([OInfo ISolNewRequest; ODb DbReset] ++ u ++ i), (post ++ o2).
+      split; [cbn [app]; rewrite <- !app_assoc; reflexivity|]. split; [fb|].
+      exists u, i. auto.
+    + change (s_deferred (rx_state s0) = None). rewrite Hd0. destruct Hinv as [_ Hr].
+      apply rest_ok_deferred_none; [exact Hr|]. intros ? ? ? ? X. rewrite Ec in X. discriminate.
+  - rewrite (on_rx_unsol cfg s0 from None bytes d resp0 is_null retries dl) in E1 by exact Hc0.
+    rewrite (unsol_wait_fragment_repeat cfg (rx_state s0) resp0 from bytes d (next_fid s0) ctl fn obj resp) in E1;
+      [| exact Et | apply EclA; reflexivity].
+    inv_pair E1. rewrite (echo_of_buf s) by exact Hb0.
+    exists [], o2. auto.
+Qed.
+
+Definition quiet_step (o : list oobs) : Prop := forallb quiet o = true.
+
+Lemma echo_quiet s from resp : forallb quiet (echo_of s from resp) = true.
+Proof. destruct resp; reflexivity. Qed.
+
+Lemma repeat_prefix_quiet c fn seq pre : repeat_prefix c fn seq pre -> forallb quiet pre = true.
+Proof.
+  destruct c as [|se dl r|resp n rt dl]; cbn [repeat_prefix].
+  - intros ->. reflexivity.
+  - intros [u [i [-> [Su Hi]]]]. cbn [app forallb quiet andb]. rewrite forallb_app.
+    rewrite (forallb_imp _ _ _ bg_quiet (forallb_imp _ _ _ ustart_bg Su)).
+    destruct Hi as [->| ->]; reflexivity.
+  - intros ->. reflexivity.
+Qed.
+
+(* THEOREM 1.  In any reachable state, a unicast request accepted from the master and classified as
+   the repetition of the non-READ request recorded last (same sequence number, identical bytes:
+   classify_repeat_nonread_iff) produces:
+     pre  - what the arrival itself causes before the answer: the idle-request notification; or, in a
+            solicited confirm wait, the abort of the series (ISolNewRequest, database reset), whatever
+            check_unsolicited then does (u: possibly a new unsolicited response), and the notification
+            when the request is then taken up from idle (not when the new unsolicited wait reads it);
+            nothing in the unsolicited confirm wait;
+     echo - the remembered response over the unchanged solicited buffer (nothing when the request
+            had no response);
+     post - the idle loop and the timers going on: no callback, no RESTART clearing, no request
+            taken up (bg).
+   In particular no OCb and no OInfo IClearRestart occurs in the whole step. *)
+Theorem repeat_not_reexecuted cfg h s from bytes d ans ctl fn obj resp s' o :
+  Reach cfg h s ->
+  to_treq cfg from d = TqRequest ctl fn obj ->
+  classify s None bytes ctl fn obj = FtRepeatNonRead resp ->
+  ostep cfg s (ERx from None bytes d) ans = (s', o) ->
+  (exists pre post,
+     o = pre ++ echo_of s from resp ++ post /\ forallb bg post = true /\
+     repeat_prefix (s_control s) fn (ctl_seq ctl) pre) /\
+  forallb quiet o = true.
+Proof.
+  intros HR Et Ecl H. apply reach_inv in HR.
+  destruct (repeat_step_inv _ _ _ _ _ _ _ _ _ _ _ _ _ HR Et Ecl H) as [pre [post [Eo [B P]]]].
+  split; [eauto|]. subst o.
+  rewrite !forallb_app, (repeat_prefix_quiet _ _ _ _ P), echo_quiet, (forallb_imp _ _ _ bg_quiet B). reflexivity.
+Qed.
+
+(* ---------- 2. coherence of the remembered response ----------------------------------------------------------------------------- *)
+
+(* THEOREM 2.  In every reachable state the remembered response, rendered over the solicited transmit
+   buffer as it is now, is byte for byte a fragment transmitted earlier (to the configured master when
+   only that master is listened to). *)
+Theorem last_response_coherent cfg h s l r :
+  Reach cfg h s -> s_last s = Some l -> lr_response l = Some r ->
+  exists dest, In (OTx dest (response_bytes r (s_sol_buf s))) h /\
+               (o_any_master cfg = false -> dest = o_master cfg).
+Proof. intros HR Hl Hr. apply reach_inv in HR. destruct HR as [[A _] _]. exact (A _ _ Hl Hr). Qed.
+
+(* ... and during a solicited confirm wait it is the fragment whose confirmation is awaited (the
+   defect fixed by "READ repeated during a multi-fragment response" left the first fragment's header
+   here while the buffer held the second fragment's objects) *)
+Theorem sol_wait_remembers_awaited_fragment cfg h s se dl rs :
+  Reach cfg h s -> s_control s = CSolWait se dl rs ->
+  exists l r, s_last s = Some l /\ lr_response l = Some r /\
+              ctl_seq (r_ctl r) = se_ecsn se mod 16 /\
+              exists dest, In (OTx dest (response_bytes r (s_sol_buf s))) h /\
+                           (o_any_master cfg = false -> dest = o_master cfg).
+Proof.
+  intros HR Hc. apply reach_inv in HR. destruct HR as [[A [_ [C _]]] _].
+  destruct (C _ _ _ Hc) as [l [r [Hl [Hr Hq]]]]. exists l, r. splits; auto. exact (A _ _ Hl Hr).
+Qed.
+
+(* ---------- 3. the reply to a repeat is identical to a fragment sent before -------------------------------------------------------- *)
+
+(* THEOREM 3a.  The answer to a repeated non-READ request (from idle, after aborting a solicited
+   series, or in the unsolicited confirm wait) is a fragment already in the history, sent to the
+   same station when only the configured master is listened to. *)
+Theorem repeat_reply_identical cfg h s from bytes d ans ctl fn obj r s' o :
+  Reach cfg h s ->
+  to_treq cfg from d = TqRequest ctl fn obj ->
+  classify s None bytes ctl fn obj = FtRepeatNonRead (Some r) ->
+  ostep cfg s (ERx from None bytes d) ans = (s', o) ->
+  let X := response_bytes r (s_sol_buf s) in
+  (exists pre post, o = pre ++ OTx from X :: post /\ forallb bg post = true /\
+                    repeat_prefix (s_control s) fn (ctl_seq ctl) pre) /\
+  exists dest, In (OTx dest X) h /\ (o_any_master cfg = false -> dest = from).
+Proof.
+  intros HR Et Ecl H X. pose proof (reach_inv _ _ _ HR) as Hinv.
+  destruct (repeat_step_inv _ _ _ _ _ _ _ _ _ _ _ _ _ Hinv Et Ecl H) as [pre [post [Eo [B P]]]].
+  split; [exists pre, post; auto|].
+  apply classify_repeat_nonread_iff in Ecl as [_ [_ [_ [l [Hl [_ [_ Hr]]]]]]].
+  destruct (last_response_coherent _ _ _ _ _ HR Hl (eq_sym Hr)) as [dest [Hin Hd]].
+  exists dest. split; [exact Hin|]. intros Ha. rewrite (Hd Ha). symmetry. eapply to_treq_from; eauto.
+Qed.
